@@ -207,6 +207,8 @@ func helperReadMessageRules(c *Ctx, prop string) {
 	m := c.machine()
 	m.OpaqueOK = true
 	var cfgProblems []string
+	markSeq := 0 // objects created after this one were allocated inside the OnIntermediate callback
+	markMake := 0
 	m.Models["(*"+wsutil+".Reader).NextFrame"] = func(cl *fold.Call) fold.Val {
 		mm := cl.M
 		r, _ := cl.Args[0].(fold.Ref)
@@ -228,6 +230,8 @@ func helperReadMessageRules(c *Ctx, prop string) {
 				cfgProblems = append(cfgProblems, "Reader.OnIntermediate is not set")
 			} else {
 				ph := headerVal(true, 0, 9, false, nil, fold.Int{Lo: 0, Hi: 125, Name: "CLength"})
+				markSeq = objSeq(mm.NewObj("mark", fold.Nil{}))
+				markMake = mm.Seq("make")
 				e := mm.CallValue(cb, []fold.Val{ph, fold.Sym{Name: "ctl-src", NonNil: true}}, 1)
 				if c.errName(e) != "nil" {
 					return fold.Tuple{ph, e}
@@ -259,6 +263,11 @@ func helperReadMessageRules(c *Ctx, prop string) {
 	m.Models["io/ioutil.ReadAll"] = readAll
 	m.Models["io.ReadAll"] = readAll
 	m.Models["io.ReadFull"] = func(cl *fold.Call) fold.Val {
+		if fold.Show(cl.Args[0]) == "ctl-src" {
+			// the payload of an intermediate control frame read into a buffer of the callback's own
+			cl.M.Emit(fold.Effect{Kind: "call", Name: "CtlReadFull", Args: cl.Args})
+			return fold.Tuple{fold.Int{Lo: 0, Hi: 125}, errChoice(cl.M, "readall.err", "readall-error")}
+		}
 		cl.M.Emit(fold.Effect{Kind: "call", Name: "ReadFull", Args: cl.Args})
 		stillOnSource(cl.M, cl.Args[0])
 		return fold.Tuple{fold.Int{Lo: 0, Hi: fold.MaxInt64}, errChoice(cl.M, "readfull.err", "readfull-error")}
@@ -278,6 +287,53 @@ func helperReadMessageRules(c *Ctx, prop string) {
 	c.R.AddCells(len(paths))
 	c.R.Paths += len(paths)
 	problems := append([]string{}, cfgProblems...)
+	// identity of what is returned: with m == nil the result is a concrete list of messages, and
+	// every payload in it must be memory of its own - the result of ReadAll / Buffer.Bytes of a
+	// buffer local to the call, or an allocation made while that very frame was handled
+	if mn := c.P.NamedType(wsutil, "Message"); mn != nil {
+		iPayload := fieldIdx(structOf(mn), "Payload", typeIs("[]byte"))
+		idPaths := m.Explore(f, func(mm *fold.Machine) []fold.Val {
+			markSeq = 0
+			return []fold.Val{fold.Sym{Name: "r", NonNil: true}, fold.Int{Lo: 0, Hi: 255, Name: "s"}, fold.Nil{}}
+		}, func(mm *fold.Machine, p *fold.Path) {
+			ret, _ := p.Ret.(fold.Tuple)
+			if len(ret) != 2 || c.errName(ret[1]) != "nil" || iPayload < 0 {
+				return
+			}
+			sl, ok := ret[0].(fold.SliceV)
+			if !ok {
+				return
+			}
+			inter := p.Chose("intermediate") == 1
+			for i, el := range mm.Elems(sl) {
+				st, ok := el.(fold.Struct)
+				if !ok || len(st.F) <= iPayload {
+					continue
+				}
+				switch pl := st.F[iPayload].(type) {
+				case fold.SliceV:
+					if inter && i == 0 && objSeq(pl.O) < markSeq {
+						problems = append(problems, "the payload of an intermediate control frame is returned in "+pl.O.Name+", memory that was allocated before the frame arrived: every control frame of the call shares it, so an earlier message changes when a later one is read")
+					}
+				case fold.SymSeq:
+					var k int
+					if _, err := fmt.Sscanf(pl.Name, "make#%d", &k); err == nil {
+						if inter && i == 0 && k <= markMake {
+							problems = append(problems, "the payload of an intermediate control frame is returned in "+pl.Name+", memory that was allocated before the frame arrived: every control frame of the call shares it")
+						}
+					} else if pl.Name != "ctl-bts" && pl.Name != "buf-bytes" {
+						problems = append(problems, "a returned payload is "+pl.Name+", not memory of its own")
+					}
+				}
+			}
+		})
+		for _, p := range idPaths {
+			if p.Abort != "" || p.Panic {
+				problems = append(problems, "undecided: "+p.Abort+panicNote(p))
+			}
+		}
+		c.R.AddCells(len(idPaths))
+	}
 	for _, p := range paths {
 		if p.Abort != "" || p.Panic {
 			problems = append(problems, "undecided: "+p.Abort+panicNote(p))
@@ -293,8 +349,8 @@ func helperReadMessageRules(c *Ctx, prop string) {
 		inter := p.Chose("intermediate") == 1
 		if inter {
 			ra := p.Calls("ReadAll")
-			if len(ra) != 1 || fold.Show(ra[0].Args[0]) != "ctl-src" {
-				problems = append(problems, "intermediate control payload is not read from the reader handed to OnIntermediate")
+			if !(len(ra) == 1 && fold.Show(ra[0].Args[0]) == "ctl-src" && len(p.Calls("CtlReadFull")) == 0) && !(len(ra) == 0 && len(p.Calls("CtlReadFull")) == 1) {
+				problems = append(problems, "intermediate control payload is not read (once, to its end) from the reader handed to OnIntermediate")
 				continue
 			}
 			if p.Chose("readall.err") > 0 {
@@ -323,12 +379,18 @@ func helperReadMessageRules(c *Ctx, prop string) {
 					allocs = append(allocs, ef)
 				}
 			}
-			if len(allocs) != 1 || !(intName(allocs[0].Args[0]) == "Length" || fold.IntSize == 32 && strings.Contains(intName(allocs[0].Args[0]), "Length")) {
-				problems = append(problems, "single-frame message is not read into a buffer of Header.Length bytes")
+			if len(rf) != 1 || !isRdRef(rf[0].Args[0]) {
+				problems = append(problems, "single-frame payload is not read with io.ReadFull(&rd, p)")
 				continue
 			}
-			if len(rf) != 1 || !isRdRef(rf[0].Args[0]) || fold.Show(rf[0].Args[1]) != "make#1" {
-				problems = append(problems, "single-frame payload is not read with io.ReadFull(&rd, p)")
+			// the buffer it is read into is the k-th allocation of the path, and that one has Header.Length bytes
+			var k int
+			if _, err := fmt.Sscanf(fold.Show(rf[0].Args[1]), "make#%d", &k); err != nil || k < 1 || k > len(allocs) {
+				problems = append(problems, "single-frame payload is read into "+fold.Show(rf[0].Args[1])+", not into a buffer allocated for it")
+				continue
+			}
+			if size := intName(allocs[k-1].Args[0]); !(size == "Length" || fold.IntSize == 32 && strings.Contains(size, "Length")) {
+				problems = append(problems, "single-frame message is not read into a buffer of Header.Length bytes (but "+size+")")
 				continue
 			}
 			if p.Chose("readfull.err") > 0 {
@@ -456,4 +518,17 @@ func helperNextReaderRules(c *Ctx, prop string) {
 	}
 	c.R.AddCells(len(paths))
 	c.verdict(rule, rule+"/NextReader", c.P.FuncPos(f), uniq(problems), "new Reader on the given source and state")
+}
+
+// objSeq is the creation number of a modelled object (objects are numbered in the order the
+// evaluator creates them on a path).
+func objSeq(o *fold.Obj) int {
+	if o == nil {
+		return -1
+	}
+	n := 0
+	if i := strings.LastIndexByte(o.Name, '#'); i >= 0 {
+		fmt.Sscanf(o.Name[i+1:], "%d", &n)
+	}
+	return n
 }
